@@ -36,6 +36,11 @@ def llm_fn_for(kind, version):
         if "generate_bot_message" in t:
             return f'  "LLMTEXT-{rw.digest(prompt)}x"'
         if version == "2.x":
+            tail = prompt[-80:]
+            if tail.rstrip().endswith("user intent:"):
+                return "user asked something"
+            if tail.rstrip().endswith("bot intent:"):
+                return f'bot inform something\nbot action: bot say "LLMTEXT-{rw.digest(prompt)}x"'
             return f'"LLMTEXT-{rw.digest(prompt)}x"'
         return f"LLMTEXT-{rw.digest(prompt)}x"
     return fn
@@ -56,9 +61,9 @@ def explore_world(task):
         res["viol"].append((f"world-rejected:{version}", repr(e), info0))
         return res
     outs = outcomes_v2(order) if v2 else outcomes_v1(order)
-    kinds = ["llm", "predef"] if dialog else ["llm"]
+    kinds = ["llm", "predef"] if dialog is True else ["llm"]
     nonce = [0]
-    tag = f"{'v2' if v2 else 'v1'}:{'dialog' if dialog else 'nodialog'}"
+    tag = f"{'v2' if v2 else 'v1'}:{'llmlib' if dialog == 'llm' else ('dialog' if dialog else 'nodialog')}"
 
     def expand(ctx, t, hist, disturbed):
         if t > turns:
@@ -68,7 +73,7 @@ def explore_world(task):
             for oc in (outs if kind == "llm" else [tuple("A" for _ in order)]):
                 nonce[0] += 1
                 if v2:
-                    user_text = {"llm": "ask", "predef": "hello"}[kind] if dialog else f"U{t}x{nonce[0]}q hello"
+                    user_text = {"llm": "ask", "predef": "hello"}[kind] if dialog is True else f"U{t}x{nonce[0]}q hello"
                 else:
                     user_text = f"U{t}x{nonce[0]}q hello"
                 verdicts = {"in1": "A"}
@@ -102,8 +107,19 @@ def explore_world(task):
                 if kind == "llm":
                     res["llm_text_turns"] += 1
                     gen = [c for c in turn.llm_calls if "LLMTEXT-" in str(c.get("answer", ""))]
+                    for c in gen:
+                        if "bot say" in str(c["answer"]):
+                            c["answer"] = str(c["answer"]).split("bot say", 1)[1]
                     if not gen:
-                        bad("no-llm-text-generated", f"expected an LLM generated bot message; LLM calls: {[str(c['task']) for c in turn.llm_calls]}, reply {turn.text!r}")
+                        # no bot message was generated at all in this turn (e.g. the v2 llm library refuses to
+                        # call the LLM while it believes the bot is still talking after an aborted `bot say`):
+                        # nothing for the output rails to gate - outside the statement, counted
+                        res["turns_without_generated_message"] = res.get("turns_without_generated_message", 0) + 1
+                        res["llm_text_turns"] -= 1
+                        if turn.text and not (turn.text or "").startswith(("REFUSED", "EXC:")):
+                            bad("reply-without-generation", f"no LLM text was generated but the reply is {turn.text!r}")
+                        if v2:
+                            expand(turn.reply.state, t + 1, hist + [step], now_disturbed)
                         continue
                     llm_text = gen[-1]["answer"].strip().strip('"')
                     cur = llm_text
@@ -170,7 +186,7 @@ def tasks(tier):
     for max_rails, turns in plan:
         for version in ("1.0", "2.x"):
             for order in orders(max_rails, reduced=(tier == "quick")):
-                for dialog in (False, True):
+                for dialog in ((False, True) if version == "1.0" else (False, True, "llm")):
                     for exc in (False, True):
                         key = (version, order, dialog, exc)
                         if key in seen and turns <= 2:
